@@ -2684,6 +2684,12 @@ impl SctpInner {
         trace!("Received SCTP Heartbeat, sending ACK");
 
         let tag = self.remote_verification_tag.load(Ordering::SeqCst);
+        if tag == 0 {
+            // Our INIT has not been answered yet (the peer learnt our tag from the INIT and may
+            // already probe us): there is no verification tag to put on a reply, and a packet
+            // with tag 0 is not something the peer may accept. It will probe again.
+            return Ok(());
+        }
         self.send_chunk(CT_HEARTBEAT_ACK, 0, chunk, tag).await?;
         Ok(())
     }
